@@ -325,8 +325,8 @@ def rule_nan(prog, rep, R):
               f"log_prob returns {detail}; expected where(isnan(v), -inf, v) of the vectorised _log_prob")
 
 
-def rule_mix(prog, rep):
-    rep.rule("C05.mix", "VmapMixture: density = logsumexp(component log-probs + log-normalised weights); weights are "
+def rule_mix(prog, rep, R="C05.mix"):
+    rep.rule(R, "VmapMixture: density = logsumexp(component log-probs + log-normalised weights); weights are "
                         "stored as a wrapper that re-normalises log(weights) with log_softmax at every unwrap "
                         "(normaliser computed from the wrapped argument itself); sampling splits the key, picks a "
                         "component with one half and samples it with the other", minimum=4)
@@ -336,7 +336,7 @@ def rule_mix(prog, rep):
                            "def _log_prob(self, x, condition=None):\n"
                            "    lps = eqx.filter_vmap(lambda d: d._log_prob(x, condition))(self.dist)\n"
                            "    return logsumexp(lps + self.log_normalized_weights)\n", [XS, CONDS])
-    compare(rep, "C05.mix", method_site(prog, c, "_log_prob"), "VmapMixture._log_prob", got, want, "_log_prob")
+    compare(rep, R, method_site(prog, c, "_log_prob"), "VmapMixture._log_prob", got, want, "_log_prob")
     got = Interp(prog).eval_method(c, "_sample", [KEY, CONDS])
     want = eval_ref_method(prog, c,
                            "def _sample(self, key, condition=None):\n"
@@ -345,7 +345,7 @@ def rule_mix(prog, rep):
                            "    component_dist = tree_map(lambda leaf: leaf[component] if isinstance(leaf, Array) "
                            "else leaf, tree=self.dist)\n"
                            "    return component_dist._sample(key2, condition)\n", [KEY, CONDS])
-    compare(rep, "C05.mix", method_site(prog, c, "_sample"), "VmapMixture._sample", got, want, "_sample")
+    compare(rep, R, method_site(prog, c, "_sample"), "VmapMixture._sample", got, want, "_sample")
     W, DD = ("sym", "WEIGHTS"), ("sym", "DIST")
     f = Interp(prog).eval_init(c, [DD, W])
     site = method_site(prog, c, "__init__")
@@ -376,9 +376,9 @@ def rule_mix(prog, rep):
             why = f"the wrapped value is not log(weights): {show(lw, 200)}"
     else:
         why = f"log_normalized_weights is not re-normalised at unwrap (stored as {show(lw, 200)})"
-    rep.check(ok, "C05.mix", site, "VmapMixture.log_normalized_weights",
+    rep.check(ok, R, site, "VmapMixture.log_normalized_weights",
               "Lambda(log_softmax, log(weights))", why)
     rep.check(same(f.get("dist", C(0)), DD) and f.get("shape") == ("attr", DD, "shape")
               and f.get("cond_shape") == ("attr", DD, "cond_shape"),
-              "C05.mix", site, "VmapMixture.__init__:dist/shape", "dist, shape, cond_shape forwarded",
+              R, site, "VmapMixture.__init__:dist/shape", "dist, shape, cond_shape forwarded",
               f"fields: dist={show(f.get('dist', C(None)), 80)}, shape={show(f.get('shape', C(None)), 80)}")
